@@ -12,6 +12,13 @@ import tlc
 PATTERNS = ['ign', r'w\d+x$']
 IGN_NAMES = ['ign-1', 'ignore me', 'w12x', 'ign']
 OK_NAMES = [None, 'worker', 'xign', 'Ign-1', 'w12xy', 'net-ign', ' ign']
+# pattern lists whose members must keep their own meaning (an inline flag, a
+# numbered backreference): (patterns, names to be ignored, names to be reported)
+PATTERN_SETS = [
+    (PATTERNS, IGN_NAMES, OK_NAMES),
+    ([r'(?i)pool-\d+', 'Worker'], ['POOL-7', 'pool-12', 'Worker-1'], [None, 'worker', 'pool-x', 'xWorker']),
+    ([r'srv-(\d)-\1', r'cli-(\d)-\1'], ['srv-1-1', 'cli-2-2'], [None, 'cli-2-3', 'srv-1-2', 'xcli-2-2']),
+]
 IDENT = re.compile(r'\d{8,}')
 
 
@@ -48,7 +55,8 @@ def schedules(chk, tier, rng):
 
 def make_case(cid, h, rng):
     dummy_ignored = rng.random() < 0.25
-    pats = list(PATTERNS) + (['Dummy-'] if dummy_ignored else [])
+    base_pats, ign_names, ok_names = rng.choice(PATTERN_SETS)
+    pats = list(base_pats) + (['Dummy-'] if dummy_ignored else [])
     tests = {}
     attrs = {}
     cur = None
@@ -63,7 +71,7 @@ def make_case(cid, h, rng):
                 api = 'threading'
             a = {'a': 'tstart', 'name': th, 'api': api}
             if api == 'threading':
-                nm = rng.choice(IGN_NAMES if g else OK_NAMES)
+                nm = rng.choice(ign_names if g else ok_names)
                 if nm is not None:
                     a['tname'] = nm
             attrs[th] = a
